@@ -17,6 +17,7 @@ import (
 	"testing"
 	"time"
 
+	arrowmem "github.com/apache/arrow-go/v18/arrow/memory"
 	"github.com/influxdata/flux"
 	"github.com/influxdata/flux/execute"
 	"github.com/influxdata/flux/memory"
@@ -469,6 +470,26 @@ type c41Table struct {
 
 var errC41Runaway = errors.New("c41: runaway output")
 
+// c41CountAlloc counts the buffer allocations of one query. A table implementation that keeps
+// producing buffers which never reach the consumer (zero-length buffers swallowed by the
+// window splitter) is stopped by a count, not by the clock.
+type c41CountAlloc struct {
+	inner    arrowmem.Allocator
+	n, limit int
+}
+
+var errC41AllocRunaway = errors.New("c41: runaway buffer allocation without output")
+
+func (a *c41CountAlloc) Allocate(size int) []byte {
+	a.n++
+	if a.n > a.limit {
+		panic(errC41AllocRunaway)
+	}
+	return a.inner.Allocate(size)
+}
+func (a *c41CountAlloc) Reallocate(size int, b []byte) []byte { return a.inner.Reallocate(size, b) }
+func (a *c41CountAlloc) Free(b []byte)                        { a.inner.Free(b) }
+
 func c41ReadTable(tbl flux.Table, budget *int) (*c41Table, error) {
 	out := &c41Table{}
 	key := tbl.Key()
@@ -762,7 +783,20 @@ func c41Check(sp c41Spec, typ byte, pts []sk.Pt, tabs []*c41Table) (kind, detail
 	// no time column: one table per window, key _start/_stop = the clipped window
 	for i := 0; i < len(want) || i < len(tabs); i++ {
 		if i >= len(tabs) {
-			return "missing_window", fmt.Sprintf("window %d [%d,%d) (empty=%v) has no table; got %d tables, want %d", i, want[i].cs, want[i].ce, want[i].empty, len(tabs), len(want)), emptyWin, emptySelTables, emptySelNullRows
+			k := "missing_window"
+			if selector && len(tabs) > 0 && len(tabs)%reads.MaxPointsPerBlock == 0 {
+				// everything up to a full 1000-window buffer was right and only empty windows are missing
+				onlyEmpty := true
+				for _, w := range want[i:] {
+					if !w.empty {
+						onlyEmpty = false
+					}
+				}
+				if onlyEmpty {
+					k = "trailing_empty_windows_dropped_after_full_buffer"
+				}
+			}
+			return k, fmt.Sprintf("window %d [%d,%d) (empty=%v) has no table; got %d tables, want %d", i, want[i].cs, want[i].ce, want[i].empty, len(tabs), len(want)), emptyWin, emptySelTables, emptySelNullRows
 		}
 		tb := tabs[i]
 		if i >= len(want) {
@@ -861,6 +895,7 @@ func TestC41(t *testing.T) {
 	perEnv := r.N(125, 400)
 	ctx := context.Background()
 	done := 0
+	maxAllocPerMille, maxAllocRatioN := 0, 1000
 	for envNo := 0; done < nQueries; envNo++ {
 		rg := r.SubRand("env", envNo)
 		env, err := c41OpenEnv(t.TempDir())
@@ -910,10 +945,14 @@ func TestC41(t *testing.T) {
 				continue
 			}
 			// budget for runaway protection: the largest legitimate output
-			budget := 20000
+			budget := 5000
 			for _, rw := range raw {
-				budget += 4 * (len(rw.pts) + int((sp.Hi-sp.Lo)/sp.Every) + 2)
+				budget += 3 * (len(rw.pts) + 2)
+				if sp.CreateEmpty {
+					budget += 3 * int((sp.Hi-sp.Lo)/sp.Every+2)
+				}
 			}
+			calloc := &c41CountAlloc{inner: arrowmem.DefaultAllocator, limit: 20000 + 5*budget}
 			got := map[string][]*c41Table{}
 			var gotOrder []string
 			var qerr error
@@ -933,7 +972,7 @@ func TestC41(t *testing.T) {
 					CreateEmpty:    sp.CreateEmpty,
 					TimeColumn:     sp.TimeColumn,
 					ForceAggregate: sp.Force,
-				}, memory.NewResourceAllocator(nil))
+				}, memory.NewResourceAllocator(calloc))
 				if err != nil {
 					qerr = err
 					return
@@ -952,10 +991,17 @@ func TestC41(t *testing.T) {
 			}()
 			select {
 			case <-finished:
-			case <-time.After(120 * time.Second):
-				r.Inconclusive("ReadWindowAggregate did not return within the 120 s watchdog")
-				abort = true
-				continue
+			case <-time.After(90 * time.Second):
+				// last resort (a loop that neither emits nor allocates): undecided, and the engine
+				// cannot be closed under a spinning reader
+				r.Inconclusive("ReadWindowAggregate did not return within the 90 s watchdog")
+				r.Extra("watchdog_spec", sp)
+				return
+			}
+			r.Event("buffer_allocations", int64(calloc.n))
+			if calloc.n > maxAllocRatioN*1 && calloc.n*1000/(budget+1) > maxAllocPerMille {
+				maxAllocPerMille = calloc.n * 1000 / (budget + 1)
+				r.Extra("max_allocations_per_1000_budget_rows", maxAllocPerMille)
 			}
 			feats := func(typ byte, kind string) map[string]string {
 				tc := sp.TimeColumn
@@ -980,11 +1026,26 @@ func TestC41(t *testing.T) {
 				}
 				return w
 			}
+			// class names the failing table implementation + trigger narrowly (known findings match on it)
+			report := func(typ byte, kind string, w c41Wit) {
+				class := "window_table_mismatch"
+				selector := c20IsSelector(sp.Agg)
+				switch {
+				case kind == "runaway_output" && selector && sp.Force && !sp.CreateEmpty:
+					class = "force_aggregate_selector_without_create_empty_never_ends"
+				case kind == "trailing_empty_windows_dropped_after_full_buffer" && selector && sp.CreateEmpty && sp.TimeColumn == "" && !sp.Force:
+					class = "empty_window_selector_table_drops_trailing_windows"
+				}
+				r.Event("violations_"+class, 1)
+				r.Violation(class, feats(typ, kind), w)
+			}
 			nonTrivial := false
 			if qerr != nil {
 				kind := "error"
 				if errors.Is(qerr, errC41Runaway) || strings.Contains(qerr.Error(), errC41Runaway.Error()) {
 					kind = "runaway_output"
+				} else if strings.Contains(qerr.Error(), errC41AllocRunaway.Error()) {
+					kind = "runaway_without_output"
 				}
 				typ := byte('f')
 				ser := ""
@@ -994,7 +1055,7 @@ func TestC41(t *testing.T) {
 						typ = rw.typ
 					}
 				}
-				r.Violation("window_table_mismatch", feats(typ, kind), wit(ser, typ, kind, qerr.Error()))
+				report(typ, kind, wit(ser, typ, kind, qerr.Error()))
 			} else {
 				for _, series := range order {
 					rw := raw[series]
@@ -1012,7 +1073,7 @@ func TestC41(t *testing.T) {
 						r.Event("series_with_over_1000_windows", 1)
 					}
 					if kind != "" {
-						r.Violation("window_table_mismatch", feats(rw.typ, kind), wit(series, rw.typ, kind, detail))
+						report(rw.typ, kind, wit(series, rw.typ, kind, detail))
 						break
 					}
 				}
@@ -1025,7 +1086,7 @@ func TestC41(t *testing.T) {
 					for _, tb := range got[series] {
 						for _, row := range tb.rows {
 							if !row.null && !(sp.Agg == c20Count && row.v == sk.IntVal(0)) {
-								r.Violation("window_table_mismatch", feats('f', "phantom_series"), wit(series, 'f', "phantom_series", fmt.Sprintf("value %s for a series the filter read does not return", row.v)))
+								report('f', "phantom_series", wit(series, 'f', "phantom_series", fmt.Sprintf("value %s for a series the filter read does not return", row.v)))
 							}
 						}
 					}
